@@ -122,6 +122,17 @@ func Iter2[K cmp.Ordered, V any](site string, mp map[K]V) iter.Seq2[K, V] {
 	}
 }
 
+// IterValues is the controlled form of maps.Values.
+func IterValues[K cmp.Ordered, V any](site string, mp map[K]V) iter.Seq[V] {
+	return func(yield func(V) bool) {
+		for k := range Iter(site, mp) {
+			if !yield(mp[k]) {
+				return
+			}
+		}
+	}
+}
+
 // Order returns a controlled permutation of 0..n-1 (same drawing discipline as
 // Iter), for sites that are not Go maps (e.g. a node list handed out by a
 // third-party iterator).
